@@ -17,6 +17,7 @@ import (
 	"time"
 
 	"github.com/free5gc/nas"
+	"github.com/free5gc/nas/logger"
 	"github.com/free5gc/nas/nasConvert"
 	"github.com/free5gc/nas/nasType"
 )
@@ -33,7 +34,25 @@ func runOp(line string) string {
 	return safely(func() string { return f(toks[1:]) })
 }
 
+// plainWriter is an ordinary io.Writer without any locking of its own, as an application may install for the library's logger
+// (a bytes.Buffer, a bufio.Writer): logrus serialises the writes of its entries; if the library switches that off, concurrent
+// library calls race on it
+type plainWriter struct {
+	n   int
+	buf []byte
+}
+
+func (p *plainWriter) Write(b []byte) (int, error) {
+	p.n++
+	if len(p.buf) > 1<<16 {
+		p.buf = p.buf[:0]
+	}
+	p.buf = append(p.buf, b...)
+	return len(b), nil
+}
+
 func concMain(g int) {
+	logger.GetLogger().SetOutput(&plainWriter{})
 	sc := bufio.NewScanner(os.Stdin)
 	sc.Buffer(make([]byte, 1<<20), 1<<26)
 	var lines []string
@@ -74,7 +93,7 @@ func concMain(g int) {
 			if b, ok := unhex(t[2]); ok {
 				in := append([]byte{}, b...)
 				if m, _ := decodeEntry("plain", &in); m != nil {
-					s := shared{in: in, m: m, show: showNas(m) + readAll(m)}
+					s := shared{in: in, m: m, show: showNas(m) + readAll(m) + convReadAll(m)}
 					s.enc = safely(func() string {
 						out, err := m.PlainNasEncode()
 						if err != nil {
@@ -289,7 +308,7 @@ func concMain(g int) {
 			}
 			for k := range sh {
 				s := sh[(k+w)%len(sh)]
-				if got := showNas(s.m) + readAll(s.m); got != s.show {
+				if got := showNas(s.m) + readAll(s.m) + convReadAll(s.m); got != s.show {
 					note("shared decoded message reads differently under concurrent readers")
 				}
 				enc := safely(func() string {
@@ -359,6 +378,66 @@ func readAll(m *nas.Message) string {
 			body := f.Elem()
 			for j := 0; j < body.NumField(); j++ {
 				visitIE(body.Type().Field(j).Name, body.Field(j))
+			}
+		}
+	}
+	if m.GmmMessage != nil {
+		visitFam(reflect.ValueOf(m.GmmMessage).Elem())
+	}
+	if m.GsmMessage != nil {
+		visitFam(reflect.ValueOf(m.GsmMessage).Elem())
+	}
+	return sb.String()
+}
+
+// convReadAll applies the read-only nasConvert helpers that take raw element contents to every byte buffer of a decoded message
+// (identity renderings, PDU session bitmaps, LADN / NSSAI walkers, UE security capability): what an AMF does with a received
+// message, possibly from several goroutines at once
+func convReadAll(m *nas.Message) string {
+	var sb strings.Builder
+	try := func(name string, f func() string) {
+		defer func() {
+			if r := recover(); r != nil {
+				fmt.Fprintf(&sb, "%s=panic;", name)
+			}
+		}()
+		fmt.Fprintf(&sb, "%s=%s;", name, f())
+	}
+	visit := func(name string, v reflect.Value) {
+		if v.Kind() == reflect.Ptr {
+			if v.IsNil() {
+				return
+			}
+			v = v.Elem()
+		}
+		if v.Kind() != reflect.Struct {
+			return
+		}
+		bf := v.FieldByName("Buffer")
+		if !bf.IsValid() || bf.Kind() != reflect.Slice || bf.Type().Elem().Kind() != reflect.Uint8 {
+			return
+		}
+		b := bf.Bytes()
+		try(name+".suci", func() string { s, p, err := nasConvert.SuciToStringWithError(b); return fmt.Sprint(s, p, err != nil) })
+		try(name+".guti", func() string { _, s, err := nasConvert.GutiToStringWithError(b); return fmt.Sprint(s, err != nil) })
+		try(name+".pei", func() string { s, err := nasConvert.PeiToStringWithError(b); return fmt.Sprint(s, err != nil) })
+		try(name+".psi", func() string { return fmt.Sprint(nasConvert.PSIToBooleanArray(b)) })
+		try(name+".ladn", func() string { return fmt.Sprint(nasConvert.LadnToModels(b)) })
+		try(name+".uesec", func() string { return fmt.Sprint(nasConvert.UESecurityCapabilityToByteArray(b)) })
+		try(name+".upu", func() string { s, err := nasConvert.UpuAckToModels(b); return fmt.Sprint(s, err != nil) })
+		if len(b) >= 3 {
+			try(name+".plmn", func() string { return nasConvert.PlmnIDToString(b[:3]) })
+		}
+	}
+	visitFam := func(fv reflect.Value) {
+		for i := 1; i < fv.NumField(); i++ {
+			f := fv.Field(i)
+			if f.Kind() != reflect.Ptr || f.IsNil() {
+				continue
+			}
+			body := f.Elem()
+			for j := 0; j < body.NumField(); j++ {
+				visit(body.Type().Field(j).Name, body.Field(j))
 			}
 		}
 	}
